@@ -20,7 +20,7 @@ THEOREMS = [
     "Ebv.C08.collect_disjoint_full_proved", "Ebv.C08.collect_disjoint", "Ebv.C08.keysDistinct_triples", "Ebv.C08.collect_total_mod",
     "Ebv.C08.collect_sorted_aligned", "Ebv.C08.collect_aligned_full", "Ebv.C08.collect_aligned_pow2", "Ebv.C08.py_roundtrip",
     "Ebv.C08.percpu_slice", "Ebv.C08.percpu_index_error", "Ebv.C08.percpu_block", "Ebv.C08.stride_total",
-    "Ebv.C08.prog_store_eq_pySet", "Ebv.C08.prog_load_eq_unpack",
+    "Ebv.C08.prog_store_eq_pySet", "Ebv.C08.prog_load_eq_unpack", "Ebv.C08.packM_spec", "Ebv.C08.member_load_eq_unpack",
     "Ebv.C08.ebpf_init_full_proved", "Ebv.C08.uninitialised_keyError",
     "Ebv.C08.collect_disjoint_old_refuted", "Ebv.C08.ebpf_init_old_refuted",
 ]
@@ -28,7 +28,8 @@ TRUSTED = ["hand-written model Ebv.Collect of ArrayMap.collect / ArrayGlobalVarD
            "tied by exact correspondence (positions, map sizes, map bytes, values, error kinds) on generated declaration sets",
            "harness/vh/interp.py (executes the really generated programs); Python's struct module and C3 MRO; little-endian host",
            "struct letter sizes, fmtsize('x'), FIXED_BASE and the rounding granularity are regenerated into Ebv.Generated.Consts"]
-ASSUMPTIONS = ["formats: x, or [<>!=@]?[count]c with c in bBhHiIqQ (native formats mixing letters, i.e. with padding, are not modelled)",
+ASSUMPTIONS = ["formats: x, [<>!=@]?[count]c, and multi-letter formats ([count]c)+ with c in bBhHiIqQ: native ones with the alignment gaps "
+               "struct.calcsize inserts (alignments regenerated from the real calcsize), prefixed ones packed",
                "the program side is modelled at byte level (an n-byte store/load at r[base]+position); that the generator emits exactly "
                "that access is observed by executing the real code in the interpreter, not proved (C01/C04 territory)",
                "a program with a map access outside the map value is rejected as a whole (kernel verifier); the interpreter's fault stands for it",
@@ -39,7 +40,9 @@ ASSUMPTIONS = ["formats: x, or [<>!=@]?[count]c with c in bBhHiIqQ (native forma
 RULE = ("cases = 1-12 globalVar declarations spread over a program class with 0-3 bases (chain or fan), 0-3 subprogram instances of 1-2 "
         "classes with own bases, optional overriding redeclaration, optional map declared in a base class, optional duplicated subprogram "
         "(the two witnesses repaired by commit 6422374 are run first); "
-        "kinds: layout (Python set/get of distinct random values), prog (real program stores constants / copies variables, run in interp), "
+        "formats incl. multi-letter ones with native alignment gaps (BI, HQ, BHI, bq, IB, QH, 3BH, random groups); "
+        "kinds: layout (Python set/get of distinct random values), prog (real program stores constants / copies variables / stores into and "
+        "copies out of single members at their natural offsets, run in interp), "
         "percpu (emulated possible-CPU file, one program run per CPU); non-trivial = at least two variables of different sizes")
 
 SINGLES = "bBhHiIqQ"
@@ -51,18 +54,45 @@ def vid(name):
     return int(name[1:]) + (100 if name[0] == "p" else 0)
 
 
+def members(fmt):
+    """the letters of a format, counts expanded ('3BH' -> BBBH, 'x' -> x)"""
+    if fmt == "x":
+        return ["x"]
+    out, n = [], ""
+    for ch in fmt.lstrip("<>!=@"):
+        if ch.isdigit():
+            n += ch
+        else:
+            out += [ch] * (int(n) if n else 1)
+            n = ""
+    return out
+
+
+def mixed(fmt):
+    """several letter groups: the kind of format that has alignment gaps in native mode"""
+    return fmt != "x" and sum(not ch.isdigit() for ch in fmt.lstrip("<>!=@")) > 1
+
+
 def parse(fmt):
-    """(prefix, count, letter) of a modelled format; 'x' -> ('', 1, 'x')"""
+    """(prefix, count, letter) of a one-letter format; 'x' -> ('', 1, 'x'); letter None for multi-letter formats"""
     if fmt == "x":
         return "", 1, "x"
     pre = fmt[0] if fmt[0] in "<>!=@" else ""
     body = fmt[len(pre):]
+    if mixed(fmt):
+        return pre, len(members(fmt)), None
     return pre, (int(body[:-1]) if len(body) > 1 else 1), body[-1]
 
 
 def single(fmt):
     pre, n, c = parse(fmt)
-    return n == 1 and fmt == pre + c
+    return c is not None and n == 1 and fmt == pre + c
+
+
+def member_offset(fmt, j):
+    """natural offset of member j inside a native multi-letter format, by Python's struct alone"""
+    ms = members(fmt)
+    return struct.calcsize("".join(ms[:j + 1])) - struct.calcsize(ms[j])
 
 
 def rand_value(rng, letter):
@@ -80,14 +110,32 @@ def rand_value(rng, letter):
 
 
 def rand_values(rng, fmt):
-    pre, n, c = parse(fmt)
-    return [rand_value(rng, c) for _ in range(n)]
+    return [rand_value(rng, c) for c in members(fmt)]
+
+
+PADDED = ["BI", "HQ", "BHI", "bq", "IB", "QH", "3BH", "BH", "bQ", "hI", "BQB", "2BI2H", "Hq", "IQ", "B3I", "iBh"]
+
+
+def rand_mixed(rng, prog_side):
+    """a multi-letter format: mostly native (alignment gaps), from the fixed list or random groups"""
+    if rng.random() < 0.6:
+        f = rng.choice(PADDED)
+    else:
+        f = "".join((str(rng.choice([2, 3])) if rng.random() < 0.2 else "") + rng.choice(SINGLES)
+                    for _ in range(rng.choice([2, 2, 3, 4])))
+        if not mixed(f):
+            f = "BI"
+    if not prog_side and rng.random() < 0.2:
+        f = rng.choice("<>!=@") + f
+    return f
 
 
 def rand_fmt(rng, prog_side=False):
     r = rng.random()
     if r < 0.12:
         return "x"
+    if rng.random() < 0.17:
+        return rand_mixed(rng, prog_side)
     c = rng.choice(SINGLES)
     pre = ""
     if rng.random() < 0.2:
@@ -130,7 +178,7 @@ def gen(rng, kind):
     for i in range(nv):
         cname = rng.choice(used) if rng.random() < 0.7 else "Leaf"
         classes[cname]["vars"].append([f"v{i}", "m", rand_fmt(rng, prog_side)])
-    if all(parse(v[2])[1] == 0 for c in classes.values() for v in c["vars"]):
+    if all(csize(v[2]) == 0 for c in classes.values() for v in c["vars"]):
         next(c for c in classes.values() if c["vars"])["vars"][0][2] = "B"    # a map of size 0 is never created
     if rng.random() < 0.22:                           # an overriding redeclaration in a derived class
         cands = [(c, v) for c in used for a in ancestors(classes, c) for v in classes[a]["vars"]]
@@ -220,6 +268,18 @@ def complete(rng, case):
     case["prog"] = []
     if kind == "prog":
         free = [k for k in keys if single(fmt_of(case, k)) and fmt_of(case, k)[0] not in "=@"]
+        for k in keys:        # members of native multi-letter variables: program stores into one, copies another out
+            f = fmt_of(case, k)
+            if mixed(f) and f[0] not in "<>!=@":
+                ms = members(f)
+                j = rng.randrange(len(ms))
+                if rng.random() < 0.5:
+                    case["prog"].append(["mstore", k[0], k[1], j, rand_value(rng, ms[j])])
+                j2 = rng.randrange(len(ms))
+                tgt = next((t for t in free if fmt_of(case, t) == ms[j2]), None)
+                if tgt is not None and (j2 != j or rng.random() < 0.5):
+                    free.remove(tgt)
+                    case["prog"].append(["mcopy", k[0], k[1], j2, tgt[0], tgt[1]])
         while free:
             k = free.pop()
             f = fmt_of(case, k)
@@ -342,6 +402,14 @@ class Built:
                 if op[0] == "store":
                     f = fmt_of(case, (op[1], op[2]))
                     setattr(built.objs[op[1]], op[2], to_py(f, [op[3]]))
+                elif op[0] in ("mstore", "mcopy"):        # member access as a program does it: address + natural offset
+                    f = fmt_of(case, (op[1], op[2]))
+                    mem = getattr(ebpf, "m" + members(f)[op[3]])
+                    with getattr(built.objs[op[1]], op[2]).get_address(None, True, False) as (dst, _):
+                        if op[0] == "mstore":
+                            mem[ebpf.r[dst] + member_offset(f, op[3])] = op[4]
+                        else:
+                            setattr(built.objs[op[4]], op[5], mem[ebpf.r[dst] + member_offset(f, op[3])])
                 else:
                     setattr(built.objs[op[3]], op[4], getattr(built.objs[op[1]], op[2]))
             for si, sv, di, dv in case.get("pairs", []):
@@ -571,8 +639,10 @@ def observe(case):
         mi = {"progs": [{"id": i, "mro": b.mro_decls(b.objs[i])} for i in [0] + [i for c, i in case["subs"]]],
               "mapmro": b.map_attrs(), "discover": "ebpf",
               "ops": [["set", i, vid(v), vals] for i, v, vals in all_sets],
-              "prog": [[op[0], op[1], vid(op[2]), op[3]] if op[0] == "store" else ["copy", op[1], vid(op[2]), op[3], vid(op[4])]
-                       for op in case["prog"]],
+              "prog": [[op[0], op[1], vid(op[2]), op[3]] if op[0] == "store" else
+                       ["mstore", op[1], vid(op[2]), op[3], op[4]] if op[0] == "mstore" else
+                       ["mcopy", op[1], vid(op[2]), op[3], op[4], vid(op[5])] if op[0] == "mcopy" else
+                       ["copy", op[1], vid(op[2]), op[3], vid(op[4])] for op in case["prog"]],
               "reads": [[i, vid(v)] for i, v in keys]}
         if kind == "percpu":
             mi["progcheck"] = [["copy", si, vid(sv), di, vid(dp)] for si, sv, di, dp in case["pairs"]]
@@ -613,6 +683,10 @@ def oracle(ctx, case, obs):
     for op in case["prog"]:
         if op[0] == "store":
             exp[(op[1], op[2])] = [op[3]]
+        elif op[0] == "mstore":
+            exp[(op[1], op[2])] = exp[(op[1], op[2])][:op[3]] + [op[4]] + exp[(op[1], op[2])][op[3] + 1:]
+        elif op[0] == "mcopy":
+            exp[(op[4], op[5])] = [exp[(op[1], op[2])][op[3]]]
         else:
             exp[(op[3], op[4])] = exp[(op[1], op[2])]
     for k, vals in exp.items():
@@ -697,7 +771,8 @@ LEVEL_TEXT = ("Lean 4 proof over a hand-written model of ArrayMap.collect and th
               "collected twice (keysDistinct_triples) and the variables occupy pairwise disjoint ranges inside a map whose size is a multiple of 8 "
               "(collect_disjoint_full_proved), aligned to their size when larger sizes are multiples of it (collect_aligned_full); "
               "unpack(pack v) = v for every modelled format and only the variable's bytes change (py_roundtrip); program-side n-byte access and "
-              "Python-side access use the same bytes (prog_store_eq_pySet, prog_load_eq_unpack); CPU k's value is read from CPU k's block "
+              "Python-side access use the same bytes (prog_store_eq_pySet, prog_load_eq_unpack), also for each member of a multi-letter format at its "
+              "native-alignment offset (packM_spec, member_load_eq_unpack); CPU k's value is read from CPU k's block "
               "(percpu_slice, percpu_block, stride_total); maps declared in base classes are initialised (ebpf_init_full_proved). The behaviour "
               "before commit 6422374 is refuted on its witnesses (collect_disjoint_old_refuted, ebpf_init_old_refuted). Tie: exact correspondence "
               "of the real code with the model on generated declaration sets, incl. really generated programs run in the interpreter.")
